@@ -27,24 +27,25 @@ var allTys = []Ty{TNil, TBool, TInt, TFloat, TStr, TList, TMap}
 
 // G is a generator instance for one case.
 type G struct {
-	T        *rapid.T
-	V2       bool
-	Hostile  int  // 0..100: probability (percent) of deliberately ill-typed / extreme choices
-	Probes   bool // wrap operands in pval() and insert probe() statements
-	Names    []string
-	Env      map[string]Ty // static guesses for variables and point keys
-	Defined  map[string]bool
-	Loops    bool
-	Exit     bool // allow exit()
-	AddKey   bool
-	GetKey   bool
-	Slices   bool
-	MaxDepth int
-	counter  int
-	loopVars int
-	InLoop   int
-	Feat     map[string]bool // features used (for evidence / non-triviality)
-	Calls    []func(g *G, d int) *gen.Node
+	T           *rapid.T
+	V2          bool
+	Hostile     int  // 0..100: probability (percent) of deliberately ill-typed / extreme choices
+	Probes      bool // wrap operands in pval() and insert probe() statements
+	Names       []string
+	Env         map[string]Ty // static guesses for variables and point keys
+	Defined     map[string]bool
+	Loops       bool
+	Exit        bool // allow exit()
+	AddKey      bool
+	GetKey      bool
+	Slices      bool
+	EmptyBlocks bool // allow empty { } blocks in branches and loop bodies
+	MaxDepth    int
+	counter     int
+	loopVars    int
+	InLoop      int
+	Feat        map[string]bool // features used (for evidence / non-triviality)
+	Calls       []func(g *G, d int) *gen.Node
 }
 
 func New(t *rapid.T) *G {
@@ -428,6 +429,10 @@ func (g *G) cond(d int) *gen.Node {
 // Block generates 1..n statements.
 func (g *G) Block(d, maxN int) []*gen.Node {
 	n := g.n("nstmt", 1, maxN)
+	if g.EmptyBlocks && g.pct("emptyblock", 12) {
+		g.Feat["empty-block"] = true
+		return nil
+	}
 	var out []*gen.Node
 	// names defined inside the block vanish afterwards: restore the static env
 	savedEnv, savedDef := map[string]Ty{}, map[string]bool{}
